@@ -6,6 +6,16 @@ use shred::{Fetch, FetchMut, ResourceId, World};
 pub const NT: usize = 8;
 pub const ND: usize = 4;
 
+/// the dynamic ids behind the small indices the generators use: index 0 is the id of the typed API;
+/// the others differ in their low and in their high halves, and two of them agree in the low 32 bits
+pub fn dyn_id(d: u8) -> u64 {
+    if d < 4 {
+        [0, 1, 1 << 32, u64::MAX][d as usize]
+    } else {
+        d as u64
+    }
+}
+
 #[derive(Default, Debug, Clone, PartialEq, Eq)]
 pub struct Slot<const T: usize> {
     pub val: u64,
@@ -79,7 +89,7 @@ macro_rules! with_slot {
 }
 
 pub fn rid(r: Res) -> ResourceId {
-    with_slot!(r.t, S, ResourceId::new_with_dynamic_id::<S>(r.d as u64))
+    with_slot!(r.t, S, ResourceId::new_with_dynamic_id::<S>(dyn_id(r.d)))
 }
 
 pub fn insert(world: &mut World, r: Res, val: u64) {
